@@ -10,6 +10,7 @@ import (
 	"strconv"
 
 	"github.com/fatedier/frp/pkg/msg"
+	"github.com/fatedier/frp/pkg/util/vhost"
 	"github.com/fatedier/frp/verif"
 )
 
@@ -131,6 +132,8 @@ func verif_STCPProxy_Run(pxy *STCPProxy) {
 	verif.Ensures(verif.CalledWith(evVisitorListen, 1, name) && verif.CalledWith(evVisitorListen, 2, sk), "registers_own_name_and_key")
 	verif.Ensures(slices.Equal(verif.NthArg[[]string](evVisitorListen, 0, 3), want), "allow_list_defaults_to_owner")
 	verif.Ensures((err == nil) == (verif.RetErr(evVisitorListen, 1) == nil), "fails_iff_registration_fails")
+	// "refused without disturbing any owner": the only way to fail is that the name is taken by someone else
+	verif.Ensures(err == nil || (!verif.Called("visitor.Manager).CloseListener") && !verif.Called("Proxy).Close")), "refused_registration_disturbs_no_owner")
 }
 
 //verif:contract (*~/server/proxy.SUDPProxy).Run
@@ -147,6 +150,8 @@ func verif_SUDPProxy_Run(pxy *SUDPProxy) {
 	verif.Ensures(verif.CalledWith(evVisitorListen, 1, name) && verif.CalledWith(evVisitorListen, 2, sk), "registers_own_name_and_key")
 	verif.Ensures(slices.Equal(verif.NthArg[[]string](evVisitorListen, 0, 3), want), "allow_list_defaults_to_owner")
 	verif.Ensures((err == nil) == (verif.RetErr(evVisitorListen, 1) == nil), "fails_iff_registration_fails")
+	// "refused without disturbing any owner": the only way to fail is that the name is taken by someone else
+	verif.Ensures(err == nil || (!verif.Called("visitor.Manager).CloseListener") && !verif.Called("Proxy).Close")), "refused_registration_disturbs_no_owner")
 }
 
 //verif:contract (*~/server/proxy.XTCPProxy).Run
@@ -165,6 +170,7 @@ func verif_XTCPProxy_Run(pxy *XTCPProxy) {
 		verif.Ensures(verif.CalledWith(evNatListen, 1, name) && verif.CalledWith(evNatListen, 2, sk), "registers_own_name_and_key")
 		verif.Ensures(slices.Equal(verif.NthArg[[]string](evNatListen, 0, 3), want), "allow_list_defaults_to_owner")
 		verif.Ensures((err == nil) == (verif.RetErr(evNatListen, 1) == nil), "fails_iff_registration_fails")
+		verif.Ensures(err == nil || (!verif.Called("nathole.Controller).CloseClient") && !verif.Called("Proxy).Close")), "refused_registration_disturbs_no_owner")
 	} else {
 		verif.Ensures(err != nil && !verif.Called(evNatListen), "unsupported_refused")
 	}
@@ -346,4 +352,143 @@ func verif_NewProxy(ctx context.Context, options *Options) {
 func verifSpec_proxyFactory(base *BaseProxy) Proxy {
 	base.usedPortsNum = verif.Any[int]()
 	return verif.Any[Proxy]()
+}
+
+// ---------------------------------------------------------------- C10: vhost routes of http / https / tcpmux proxies
+
+const (
+	evRPRegister   = "HTTPReverseProxy).Register"
+	evRPUnRegister = "HTTPReverseProxy).UnRegister"
+	evGrpRegister  = "HTTPGroupController).Register"
+	evGrpUnReg     = "HTTPGroupController).UnRegister"
+	evMuxListen    = "vhost.Muxer).Listen"
+)
+
+// BaseProxy.Close closes every listener the proxy holds (a vhost listener's
+// Close removes its route; a group listener's Close leaves the group).
+//
+//verif:contract (*~/server/proxy.BaseProxy).Close
+//verif:props C10
+func verif_BaseProxy_Close(pxy *BaseProxy) { pxy.Close() }
+
+//verif:loopbody (*~/server/proxy.BaseProxy).Close 1 check=verifCloseEveryListener args=l
+func verifCloseEveryListener(l net.Listener) bool {
+	return verif.CalledWithInIter("net.Listener).Close", 0, l)
+}
+
+// HTTPProxy.Run: a failure at any route releases the routes registered so far
+// (the deferred Close runs); for every route registered, the release callback
+// recorded in the same iteration unregisters exactly that route (same domain,
+// location and user; same group).
+//
+//verif:contract (*~/server/proxy.HTTPProxy).Run
+//verif:props C10 C06
+func verif_HTTPProxy_Run(pxy *HTTPProxy) {
+	verif.ResetEvents()
+	_, err := pxy.Run()
+	if err != nil {
+		verif.Ensures(verif.Called("HTTPProxy).Close"), "failed_registration_releases_routes")
+	} else {
+		verif.Ensures(!verif.Called("HTTPProxy).Close"), "success_keeps_routes")
+	}
+}
+
+//verif:loopbody (*~/server/proxy.HTTPProxy).Run 2 check=verifHTTPRouteHasItsRelease args=pxy
+//verif:loopbody (*~/server/proxy.HTTPProxy).Run 3 check=verifHTTPRouteHasItsRelease args=pxy
+func verifHTTPRouteHasItsRelease(pxy *HTTPProxy) bool {
+	if pxy.cfg.LoadBalancer.Group != "" {
+		if !verif.CalledInIter(evGrpRegister) {
+			return false
+		}
+		reg := verif.IterArg[vhost.RouteConfig](evGrpRegister, 4)
+		grp := verif.IterArg[string](evGrpRegister, 2)
+		name := verif.IterArg[string](evGrpRegister, 1)
+		if !verif.RunClosure("HTTPProxy).Run$") {
+			return false
+		}
+		return verif.CalledWithInIter(evGrpUnReg, 3, reg) && verif.CalledWithInIter(evGrpUnReg, 2, grp) && verif.CalledWithInIter(evGrpUnReg, 1, name) && !verif.CalledInIter(evRPUnRegister)
+	}
+	if !verif.CalledInIter(evRPRegister) {
+		return false
+	}
+	reg := verif.IterArg[vhost.RouteConfig](evRPRegister, 1)
+	if !verif.RunClosure("HTTPProxy).Run$") {
+		return false
+	}
+	return verif.CalledWithInIter(evRPUnRegister, 1, reg) && !verif.CalledInIter(evGrpUnReg)
+}
+
+// HTTPProxy.Close runs every recorded release callback.
+//
+//verif:contract (*~/server/proxy.HTTPProxy).Close
+//verif:props C10
+func verif_HTTPProxy_Close(pxy *HTTPProxy) {
+	verif.ResetEvents()
+	pxy.Close()
+	verif.Ensures(verif.Called("BaseProxy).Close"), "closes_listeners")
+}
+
+//verif:loopbody (*~/server/proxy.HTTPProxy).Close 1 check=verifRunsEveryRelease args=closeFn
+func verifRunsEveryRelease(closeFn func()) bool {
+	return verif.CalledInIter("unknown-call")
+}
+
+// HTTPSProxy.Run / TCPMuxProxy: every listener obtained is recorded (so Close
+// releases its route); a failure closes what was obtained so far.
+//
+//verif:contract (*~/server/proxy.HTTPSProxy).Run
+//verif:props C10 C06
+func verif_HTTPSProxy_Run(pxy *HTTPSProxy) {
+	n0 := len(pxy.listeners)
+	verif.ResetEvents()
+	_, err := pxy.Run()
+	if err != nil {
+		verif.Ensures(verif.Called("HTTPSProxy).Close"), "failed_registration_releases_routes")
+	} else {
+		verif.Ensures(!verif.Called("HTTPSProxy).Close"), "success_keeps_routes")
+	}
+	_ = n0
+}
+
+//verif:loopbody (*~/server/proxy.HTTPSProxy).Run 1 check=verifHTTPSListenerRecorded args=pxy,domain
+func verifHTTPSListenerRecorded(pxy *HTTPSProxy, domain string) bool {
+	if domain == "" {
+		return !verif.CalledInIter(evMuxListen)
+	}
+	l := verif.IterRet[*vhost.Listener](evMuxListen, 0)
+	n := len(pxy.listeners)
+	return verif.CalledInIter(evMuxListen) && verif.IterArg[*vhost.RouteConfig](evMuxListen, 2).Domain == domain && n > 0 && pxy.listeners[n-1] == net.Listener(l)
+}
+
+//verif:contract (*~/server/proxy.TCPMuxProxy).Run
+//verif:props C10 C06
+func verif_TCPMuxProxy_Run(pxy *TCPMuxProxy) {
+	verif.ResetEvents()
+	_, err := pxy.Run()
+	if err != nil {
+		verif.Ensures(verif.Called("TCPMuxProxy).Close"), "failed_registration_releases_routes")
+	} else {
+		verif.Ensures(!verif.Called("TCPMuxProxy).Close"), "success_keeps_routes")
+	}
+}
+
+// httpConnectListen: the listener obtained for (domain, user, credentials) is recorded.
+//
+//verif:contract (*~/server/proxy.TCPMuxProxy).httpConnectListen
+//verif:props C10 C06 C07
+func verif_TCPMuxProxy_httpConnectListen(pxy *TCPMuxProxy, domain, routeByHTTPUser, httpUser, httpPwd string, addrs []string) {
+	n0 := len(pxy.listeners)
+	grouped := pxy.cfg.LoadBalancer.Group != ""
+	verif.ResetEvents()
+	_, err := pxy.httpConnectListen(domain, routeByHTTPUser, httpUser, httpPwd, addrs)
+	if err == nil {
+		verif.Ensures(len(pxy.listeners) == n0+1, "listener_recorded")
+		if !grouped {
+			rc := verif.NthArg[*vhost.RouteConfig](evMuxListen, 0, 2)
+			verif.Ensures(verif.Called(evMuxListen) && rc.Domain == domain && rc.RouteByHTTPUser == routeByHTTPUser && rc.Username == httpUser && rc.Password == httpPwd, "route_carries_host_user_and_credentials")
+			verif.Ensures(pxy.listeners[n0] == net.Listener(verif.Ret[*vhost.Listener](evMuxListen, 0)), "recorded_listener_is_the_registered_one")
+		}
+	} else {
+		verif.Ensures(len(pxy.listeners) == n0, "nothing_recorded_on_failure")
+	}
 }
